@@ -242,6 +242,13 @@ impl C01 {
             model.install(sets[i].hash());
         }
         ensure_p!(gw.client.epoch() == model.epoch, "epoch {} != model {}", gw.client.epoch(), model.epoch);
+        // the gateway may have been idle for a while (days derived from the domain byte so that saved cases keep their
+        // format): registered sets inside the window stay registered
+        let days_idle = [0u32, 0, 0, 0, 1, 61, 100, 150][(case.domain % 8) as usize];
+        if days_idle > 0 {
+            advance_ledgers(&env, 17280 * days_idle);
+            cx.label(if days_idle > 60 { "gateway_idle_for_more_than_60_days" } else { "gateway_idle_for_a_day" });
+        }
         let dests: Vec<Address> = (0..3).map(|_| Address::generate(&env)).collect();
 
         // prover: newest first
